@@ -268,7 +268,7 @@ impl Runner {
             match k.as_str() {
                 "i" | "pre" | "post" | "res" | "dec" | "buf" | "rbuf" | "probe" | "rprobe" | "tail_diff" | "rtail_diff" | "fields"
                 | "raw_after" | "variant" | "results" | "ok" | "raw_out" | "wide"
-                | "variant_value" | "calls" => {}
+                | "variant_value" | "calls" | "smbus" | "transport" => {}
                 _ => {
                     ev.insert(k.clone(), v.clone());
                 }
@@ -320,6 +320,34 @@ impl Runner {
                 ev.insert("post".into(), self.eids(c));
             }
             "process" => self.op_process(cmd, &mut ev),
+            "gen_hdr" => {
+                // the two public header generators of either half
+                let c = num(cmd, "ctx");
+                let dst = num(cmd, "dst") as u8;
+                ev.insert("pre".into(), self.eids(c));
+                let ctx = self.ctx(c);
+                let half = st(cmd, "half").to_string();
+                let r = catch_unwind(AssertUnwindSafe(|| -> (Vec<u8>, Vec<u8>) {
+                    if half == "req" {
+                        let h = ctx.get_request();
+                        (h.generate_smbus_header(dst).0.to_vec(), h.generate_transport_header(dst).0.to_vec())
+                    } else {
+                        let h = ctx.get_response();
+                        (h.generate_smbus_header(dst).0.to_vec(), h.generate_transport_header(dst).0.to_vec())
+                    }
+                }));
+                match r {
+                    Ok((s, t)) => {
+                        ev.insert("res".into(), json!({"kind":"ok"}));
+                        ev.insert("smbus".into(), jb(&s));
+                        ev.insert("transport".into(), jb(&t));
+                    }
+                    Err(pn) => {
+                        ev.insert("res".into(), panic_json(pn));
+                    }
+                }
+                ev.insert("post".into(), self.eids(c));
+            }
             "hdr_get" | "hdr_set" | "hdr_from_buf" | "hdr_new" => op_header(&op, cmd, &mut ev),
             "conv" => op_conv(cmd, &mut ev),
             "batch_get_length" => self.op_batch_len(cmd, &mut ev),
